@@ -32,12 +32,10 @@ Theorem C27_client_codec_named : forall reg r rc, client_send reg r = Some rc ->
 Proof. exact client_codec_named. Qed.
 Print Assumptions C27_client_codec_named.
 
-(* responses: the same rule with the response's grpc-encoding, for every server default,
-   every SetSendCompressor and every registry - except legacy RPCCompressor combined with
-   SetSendCompressor("identity") *)
+(* responses: the same rule with the response's grpc-encoding, for every server default
+   (legacy RPCCompressor included), every SetSendCompressor and every registry *)
 Theorem C27_flag_response : forall reg r rc v0 v1 ct m, reg 0 = false -> reg 1 = false ->
   scp r <> 1 -> server_send reg r rc = (v0, v1, ct) ->
-  ~ (scp r <> 0 /\ setn r = 1) ->
   flag_of (pick v0 v1) m = rule ct m.
 Proof. exact flag_response. Qed.
 Print Assumptions C27_flag_response.
@@ -49,14 +47,20 @@ Theorem C27_flag_empty_refuted : exists r rc l,
 Proof. exact flag_empty_refuted. Qed.
 Print Assumptions C27_flag_empty_refuted.
 
-(* ... and REFUTED for RPCCompressor + SetSendCompressor("identity") (defect, clause 8):
-   the response header says identity, the 5-byte message is compressed by the legacy
-   compressor with flag 1, and the client fails the RPC with INTERNAL (13) *)
-Theorem C27_flag_legacy_identity_refuted : exists r rc v0 v1 ct m,
-  server_send reg0 r rc = (v0, v1, ct) /\ ct = 1 /\ m <> 0 /\ flag_of (pick v0 v1) m = 1 /\
-  run_rpc reg0 r = [cInternal; 1; 1; 0; 1; 1; 0; 1; 0; 1; 1].
-Proof. exact flag_legacy_identity_refuted. Qed.
-Print Assumptions C27_flag_legacy_identity_refuted.
+(* RPCCompressor + SetSendCompressor("identity") (repaired defect, /repo commit 6f92b96,
+   clause 8): the handler's choice drops the legacy compressor, the header says identity
+   and no message is flagged; the old witness (RPCCompressor(x-va), 5-byte messages) now
+   completes with status OK and response flag 0 *)
+Theorem C27_flag_legacy_identity_fixed : forall reg r rc m, reg 1 = false ->
+  scp r <> 0 -> scp r <> 1 -> setn r = 1 ->
+  server_send reg r rc = (0, 0, 1) /\ flag_of (pick 0 0) m = 0.
+Proof. exact flag_legacy_identity_fixed. Qed.
+Print Assumptions C27_flag_legacy_identity_fixed.
+
+Theorem C27_legacy_identity_witness :
+  run_rpc reg0 (mkRpc 0 0 0 None 3 0 1 [(5, 5)]) = [0; 1; 1; 0; 1; 1; 1; 1; 0; 1; 0].
+Proof. exact legacy_identity_witness. Qed.
+Print Assumptions C27_legacy_identity_witness.
 
 (* "a server only compresses responses with a compressor the client advertised or the one
    the client used": whenever the response's grpc-encoding is not the legacy
@@ -128,20 +132,22 @@ Theorem C27_unsupported_use_compressor : forall reg r, use r <> 0 -> use r <> 1 
 Proof. exact unsupported_use_compressor. Qed.
 Print Assumptions C27_unsupported_use_compressor.
 
-(* The executable predicate evaluated on implementation traces (all clauses but the refuted
-   7, 8, 9) holds on every trace of the model. *)
+(* The executable predicate evaluated on implementation traces (all clauses, clause 8
+   included, but the refuted 7 and 9) holds on every trace of the model. *)
 Theorem C27_holds_on_every_model_trace : forall ops, forallb op_wf ops = true ->
   exists obs, run ops = Some obs /\ holds_b ops obs = true.
 Proof. exact model_trace_holds. Qed.
 Print Assumptions C27_holds_on_every_model_trace.
 
-(* the three refuted clauses are false on the model's own traces of their witnesses *)
+(* the two refuted clauses are false on the model's own traces of their witnesses; clause 8
+   is evaluated on its old witness and holds *)
 Theorem C27_finding_clauses_fail_on_model :
   let ops := [[1; 2; 0; 0; 0; 0; 0; 0; 1; 0; 7]; [1; 0; 0; 0; 0; 3; 0; 1; 1; 5; 5];
               [1; 0; 0; 0; 1; 3; 0; 0; 1; 5; 5]] in
   forallb op_wf ops = true /\
   exists obs, run ops = Some obs /\
-    filter (fun c => negb (snd c)) (clauses ops obs) = [(7, 0, false); (8, 0, false); (9, 0, false)].
+    filter (fun c => negb (snd c)) (clauses ops obs) = [(7, 0, false); (9, 0, false)] /\
+    existsb (fun c => (fst (fst c) =? 8) && snd c) (clauses ops obs) = true.
 Proof. exact finding_clauses_fail_on_model. Qed.
 Print Assumptions C27_finding_clauses_fail_on_model.
 
